@@ -114,7 +114,52 @@ def run_mutants(prop, seed=0, only=None):
 
 
 def crossrefs(prop):
-    return []
+    """Independent cross-references (thorough tier). C05: clippy's restriction lints, computed by a different tool from
+    the type-checked HIR, must count the same unwrap/expect/str-slice/panic! sites as the MIR census."""
+    if prop != "C05":
+        return []
+    from lib import extract as ex
+    import json
+    target = os.path.join(ex.CACHE, "clippy-target")
+    env = dict(os.environ, CARGO_TARGET_DIR=target, CARGO_NET_OFFLINE="true")
+    cmd = ["cargo", "+nightly", "clippy", "--offline", "--lib", "--bins", "--message-format=json", "--",
+           "-A", "clippy::all", "-W", "clippy::unwrap_used", "-W", "clippy::expect_used", "-W", "clippy::string_slice",
+           "-W", "clippy::panic"]
+    # cargo replays cached diagnostics for a fresh unit, so no fingerprint surgery is needed here
+    r = subprocess.run(cmd, cwd=ex.REPO, env=env, stdout=subprocess.PIPE, stderr=subprocess.PIPE, text=True)
+    if r.returncode != 0:
+        return [{"name": "clippy restriction lints", "status": "unavailable", "why": r.stderr[-300:]}]
+    counts = {}
+    for l in r.stdout.splitlines():
+        try:
+            m = json.loads(l)
+        except ValueError:
+            continue
+        if m.get("reason") != "compiler-message":
+            continue
+        code = ((m.get("message") or {}).get("code") or {}).get("code") or ""
+        if code.startswith("clippy::"):
+            counts[code] = counts.get(code, 0) + 1
+    # the census of this run
+    from rules import panic_rules as PN
+    from lib.ctx import Ctx
+    d, sha, dt, cached = ex.extract("dev")
+    ctx = Ctx("dev", d, sha, None)
+    sites = PN.collect(ctx.lib, PN.api_table()) + PN.collect(ctx.bin, PN.api_table())
+    mine = {
+        "clippy::unwrap_used": len([s for s in sites if s.kind == "call:unwrap"]),
+        "clippy::expect_used": len([s for s in sites if s.kind == "call:expect"]),
+        "clippy::string_slice": len([s for s in sites if s.kind == "call:index" and
+                                     ("for str>::index" in (s.call.full or "") or
+                                      "std::string::String as std::ops::Index" in (s.call.full or ""))]),
+        "clippy::panic": len([s for s in sites if s.kind == "diverge:panic_fmt" and
+                              any(e == "macro:panic" for e in s.call.exp)]),
+    }
+    out = []
+    for k, v in sorted(mine.items()):
+        c = counts.get(k, 0)
+        out.append({"name": k, "clippy": c, "census": v, "status": "agree" if c == v else "disagree"})
+    return out
 
 
 if __name__ == "__main__":
